@@ -36,6 +36,9 @@ class TlcResult:
         if not self.violated:
             m = re.search(r"Action property (\S+) is violated", out)
             self.violated = m.group(1) if m else None
+        if not self.violated:
+            m = re.search(r"Temporal property (\S+) was violated", out)
+            self.violated = m.group(1) if m else None
         if not self.violated and "Temporal properties were violated" in out:
             self.violated = "<temporal>"
         if not self.violated and re.search(r"Deadlock reached", out):
@@ -162,7 +165,7 @@ class Ctx:
         meta = os.path.join(self.work, "meta-%d" % len(self.tlc_runs) + "-%d" % random.randrange(1 << 30))
         if workers is None:
             workers = 8
-        jopts = ["-XX:+UseParallelGC", "-Xmx" + heap, "-Dtlc2.tool.fp.FPSet.impl=tlc2.tool.fp.OffHeapDiskFPSet" if False else "-Dverif=1"]
+        jopts = ["-XX:+UseParallelGC", "-Xss256m", "-Xmx" + heap, "-Dtlc2.tool.fp.FPSet.impl=tlc2.tool.fp.OffHeapDiskFPSet" if False else "-Dverif=1"]
         if dfs:
             jopts.append("-Dtlc2.tool.queue.IStateQueue=StateDeque")
         common = os.path.join(ROOT, "spec", "Common")
@@ -177,7 +180,7 @@ class Ctx:
             if depth:
                 cmd += ["-depth", str(depth)]
             cmd += ["-seed", str(self.seed)]
-        cmd += list(extra) + [mpath]
+        cmd += ["-noGenerateSpecTE"] + list(extra) + [mpath]
         e = dict(os.environ)
         if env:
             e.update({k: str(v) for k, v in env.items()})
